@@ -35,7 +35,8 @@ RULE = (
     "DOELibraryFactory.execute). Oracles: shape, box membership, integrality, count formula, unit samples in "
     "[0,1]^d, samples == harness affine map (+rounding) of the unit samples, database keys == samples, "
     "bit-identical repetition on fresh library objects under perturbed global RNG states, default seed sequence "
-    "1,2,3.. of one library object reproduced by explicit seeds. "
+    "1,2,3.. of one library object reproduced by explicit seeds; a dedicated CustomDOE drive (all input forms, mapping keys in "
+    "a drawn order) and an explicit sweep of n_samples over several periods of every count formula in dimensions 1-4. "
     "Non-trivial = a component whose bounds are not [0,1] and (dimension >= 2 or an integer variable); "
     "distinct = structural hash of (algorithm, space, settings, seed, route)."
 )
@@ -117,9 +118,19 @@ def _dim(space) -> int:
     return sum(v["size"] for v in space)
 
 
+def _pick(options):
+    """One of the options, evenly: a wide integer taken modulo the number of options.
+
+    (st.sampled_from clusters on a few values within one run - whole algorithms or boundary cases were
+    left with a handful of cases at some seeds; the wide integer is drawn almost uniformly.)
+    """
+    options = list(options)
+    return st.integers(0, 2**20).map(lambda k: options[k % len(options)])
+
+
 def _remainder(m: int):
     """0..m-1 with the two ends (where an off-by-one in a count formula shows) as likely as the interior."""
-    return st.one_of(st.sampled_from([0, m - 1]), st.integers(0, m - 1))
+    return st.integers(0, 2**20).map(lambda k: [0, m - 1, (k // 4) % m, (k // 4) % m][k % 4])
 
 
 @st.composite
@@ -175,7 +186,7 @@ def settings_for(draw, algo: str, space, with_seed: bool = True):
             elif mode == "list":
                 s["centers"] = [draw(centre) for _ in range(d)]
     elif algo in FULLFACT:
-        mode = draw(st.sampled_from(["n", "scalar", "list", "list"]))
+        mode = draw(_pick(["n", "n", "scalar", "list", "list"]))
         top = 4 if d <= 3 else 3
         if mode == "n":
             k = draw(st.integers(1, 4 if d <= 3 else 3))
@@ -230,7 +241,7 @@ def settings_for(draw, algo: str, space, with_seed: bool = True):
     elif algo == "CustomDOE":
         n = draw(st.integers(1, 12))
         s["_custom"] = {
-            "form": draw(st.sampled_from(["array", "dict", "dict", "dicts", "dicts", "file"])),
+            "form": draw(_pick(["array", "dict", "dict", "dicts", "dicts", "file"])),
             "t": [[draw(st.integers(0, 8)) for _ in range(d)] for _ in range(n)],
             # insertion order of the keys of the mappings: a mapping is keyed by name, its order carries no meaning
             "order": draw(st.one_of(st.just(list(range(len(space)))[::-1]), st.just(list(range(1, len(space))) + [0]), st.permutations(list(range(len(space)))))),
@@ -242,7 +253,7 @@ def settings_for(draw, algo: str, space, with_seed: bool = True):
 
 @st.composite
 def cases(draw, routes):
-    algo = draw(st.sampled_from(ALGOS))
+    algo = draw(_pick(ALGOS))
     space = draw(spaces(max_dim=MAX_DIM.get(algo, 5)))
     settings = draw(settings_for(algo, space))
     route = draw(st.sampled_from(routes))
@@ -264,10 +275,20 @@ def custom_cases(draw):
 
 @st.composite
 def seed_cases(draw):
-    algo = draw(st.sampled_from(ALGOS))
+    algo = draw(_pick(ALGOS))
     space = draw(spaces(max_dim=MAX_DIM.get(algo, 5)))
     # a call without seed after the first one is where the default seed sequence (1, 2, 3, ...) shows
-    calls = draw(st.one_of(st.just([None, None]), st.lists(st.one_of(st.none(), SEEDS), min_size=1, max_size=3), st.tuples(SEEDS, st.none()).map(list)))
+    template = draw(_pick(["none_none", "free", "seed_none", "same_seed_twice", "default_then_the_same_seed"]))
+    if template == "none_none":
+        calls = [None, None]
+    elif template == "same_seed_twice":
+        calls = [draw(SEEDS)] * 2  # one library object asked twice for the same seed
+    elif template == "default_then_the_same_seed":
+        calls = [None, 1]  # the first call without seed uses seed 1
+    elif template == "seed_none":
+        calls = [draw(SEEDS), None]
+    else:
+        calls = draw(st.lists(st.one_of(st.none(), SEEDS), min_size=1, max_size=3))
     return {
         "algo": algo, "space": space, "settings": draw(settings_for(algo, space, with_seed=algo == "MorrisDOE")),
         "calls": calls, "route": draw(st.sampled_from(["lib", "exec"])), "rng": draw(st.integers(0, 2**31 - 1)),
@@ -755,11 +776,38 @@ def case_seed(p, ctx):
     ctx.sample({"oracle": "seed", "case": p})
 
 
+def count_grid(shard: int = 0, n_shards: int = 1):
+    """Every structured design over dimensions 1-4 and every n_samples across several periods of its count formula.
+
+    The count rules are step functions of n_samples: an explicit sweep decides them at every seed, where random
+    draws reach a given boundary only now and then.
+    """
+    k = 0
+    for d in range(1, 5):
+        space = [{"name": "y", "size": d, "type": "float", "lb": [-3.5 + 10.0 * i for i in range(d)], "ub": [-1.25 + 10.0 * i for i in range(d)], "value": "none"}]
+        grids = {
+            "OT_FULLFACT": range(1, 100), "PYDOE_FULLFACT": range(1, 100), "DiagonalDOE": range(2, 6),
+            "OT_AXIAL": range(1 + 2 * d, 2 + 4 * 2 * d), "OT_FACTORIAL": range(1 + 2**d, 2 + 3 * 2**d),
+            "OT_COMPOSITE": range(1 + 2 * d + 2**d, 2 + 3 * (2 * d + 2**d)), "MorrisDOE": range(d + 1, 4 * (d + 1) + 1),
+        }
+        for algo, ns in grids.items():
+            for n in ns:
+                k += 1
+                if k % n_shards == shard:
+                    yield {"algo": algo, "space": space, "settings": {"n_samples": n, **({"reverse": []} if algo == "DiagonalDOE" else {})}, "route": "lib", "rng": n}
+        for second in (True, False):
+            block = d + 2 if (not second or d == 2) else 2 * d + 2
+            for n in range(block, 4 * block + 1):
+                k += 1
+                if k % n_shards == shard:
+                    yield {"algo": "OT_SOBOL_INDICES", "space": space, "settings": {"n_samples": n, "eval_second_order": second}, "route": "lib", "rng": n}
+
+
 def case_custom(p, ctx):
     (case_execute if p["route"].startswith("exec") else case_compute)(p, ctx)
 
 
-ORACLES = {"compute": case_compute, "execute": case_execute, "seed": case_seed, "custom": case_custom}
+ORACLES = {"compute": case_compute, "execute": case_execute, "seed": case_seed, "custom": case_custom, "counts": case_compute}
 
 
 def run(ctx):
@@ -767,3 +815,4 @@ def run(ctx):
     ctx.drive("execute", cases(["exec", "exec", "exec_factory"]), case_execute, quick=450, thorough=2000)
     ctx.drive("seed", seed_cases(), case_seed, quick=350, thorough=1500)
     ctx.drive("custom", custom_cases(), case_custom, quick=200, thorough=600)
+    ctx.enumerate("counts", count_grid(ctx.shard, ctx.n_shards), case_compute)
